@@ -25,9 +25,9 @@ static LD const TINY = 2.2250738585072014e-308L;
 #define VP_K 16
 #endif
 
-enum { L_ASINH, L_ACOSH, L_ATANH, L_EXPM1, L_LOG1P, L_ATAN2, L_ATAN2_AXIS, L_NORM, L_NORM_EXTREME, L_COORD, L_REDUCE, L_REDUCE_STRIDED, L_SHIFT, L_SHIFT_LEN0, L_TINY_ARG, L_HUGE_ARG, L_NEAR_SWITCH, L_NORM_SUBNORMAL, L_NORM_LONG, L_NORM_SQRT_RANGE };
+enum { L_ASINH, L_ACOSH, L_ATANH, L_EXPM1, L_LOG1P, L_ATAN2, L_ATAN2_AXIS, L_NORM, L_NORM_EXTREME, L_COORD, L_REDUCE, L_REDUCE_STRIDED, L_SHIFT, L_SHIFT_LEN0, L_TINY_ARG, L_HUGE_ARG, L_NEAR_SWITCH, L_NORM_SUBNORMAL, L_NORM_LONG, L_NORM_SQRT_RANGE, L_FILL_PATTERN };
 static char const *const labels[] = {"asinh", "acosh", "atanh", "expm1", "log1p", "atan2", "atan2_exact_axis", "norms", "norm_components_mix_huge_tiny", "coordinate_conversions",
-                                     "reductions", "strided_reductions", "shift_helpers", "shift_helper_length_0", "argument_lt_1e-3", "argument_gt_1e3", "argument_near_formula_switch", "norm_subnormal_components", "norm_of_1000_to_300001_components", "norm_components_in_one_binade_at_the_root_of_the_range_limits", nullptr};
+                                     "reductions", "strided_reductions", "shift_helpers", "shift_helper_length_0", "argument_lt_1e-3", "argument_gt_1e3", "argument_near_formula_switch", "norm_subnormal_components", "norm_of_1000_to_300001_components", "norm_components_in_one_binade_at_the_root_of_the_range_limits", "fill_value_with_repeating_byte_groups", nullptr};
 static char const *const metrics[] = {"asinh_err_u", "acosh_err_u", "atanh_err_u", "expm1_err_u", "log1p_err_u", "atan2_err_u", "norm_err_u", "coord_err_u", nullptr};
 static uint8_t const dict[] = {0, 1, 2, 3, 4, 5, 6, 7};
 static vp_info const info = {"C11", VP_CFG, "", labels, metrics, 200, dict, sizeof(dict)};
@@ -529,9 +529,27 @@ static void case_shift(Tape &t, Ctx &cx)
         name = "a_real_swap";
         break; }
     case 12: {
-        a_real x = a_real(t.u8());
+        // the fill value: a small integer, or any bit pattern - in particular patterns that repeat one byte, one 16-bit or one
+        // 32-bit group (what a "can this be done with memset" shortcut looks at); compared bit for bit
+        uint8_t fb = t.u8();
+        a_real x = a_real(fb);
+        if (fb >= 128)
+        {
+            uint64_t w = t.u64();
+            switch (fb % 5)
+            {
+            case 0: w = (w & 0xFF) * 0x0101010101010101ull; break;
+            case 1: w = (w & 0xFFFF) * 0x0001000100010001ull; break;
+            case 2: w = (w & 0xFFFFFFFFull) * 0x0000000100000001ull; break;
+            case 3: w = ((w & 0xFF) * 0x0001000100010001ull) | (((w >> 8) & 0xFF) * 0x0100010001000100ull); break; // two alternating bytes
+            default: break;
+            }
+            memcpy(&x, &w, sizeof(x) < 8 ? sizeof(x) : 8);
+            cx.label(L_FILL_PATTERN);
+        }
         a_real_fill(n, p, x);
-        want.assign(n, x);
+        for (unsigned i = 0; i < n; ++i) { VP_CHECK(cx, memcmp(&p[i], &x, sizeof(x) > 8 ? 10 : sizeof(x)) == 0, "fill:wrong", "a_real_fill on length %u: element %u does not hold the bits of the value", n, i); }
+        want.assign(p, p + n); // (already judged bit for bit: NaN patterns do not compare equal to themselves)
         name = "a_real_fill";
         break; }
     default:
@@ -542,7 +560,7 @@ static void case_shift(Tape &t, Ctx &cx)
     }
     for (unsigned i = 0; i < n; ++i)
     {
-        if (!(p[i] == want[i])) { cx.fail("shift:wrong", "%s on length %u: element %u is %.17g, defining formula gives %.17g", name, n, i, double(p[i]), double(want[i])); }
+        if (!(p[i] == want[i]) && memcmp(&p[i], &want[i], sizeof(a_real)) != 0) { cx.fail("shift:wrong", "%s on length %u: element %u is %.17g, defining formula gives %.17g", name, n, i, double(p[i]), double(want[i])); }
     }
 }
 
